@@ -22,6 +22,7 @@ RULE = (
     "occurs. Payload bytes = UTF-8 (or the UTF-16 flavour) of the decoded string (a source '\\*' is "
     "the byte '*'). Non-trivial = payload with a non-ASCII or escaped character, or an offset chain."
 )
+RULE += (" Every payload length 1..130 is swept for every chain, and a quarter of the random payloads has 20-300 characters.")
 ASSUMPTIONS = [
     "python's base64 and codecs are the standard encodings",
     "utf16 means BOM FF FE followed by UTF-16LE (what the modifier documents)",
@@ -205,6 +206,13 @@ def run(ctx) -> None:
     if ctx.shard == 0:
         for chain in CHAINS:
             ctx.do({"chain": chain, "src": ""})
+    # every payload length 1..130 (crosses 57 = one base64 line of input, 76, 64, 128) for every chain
+    j = 0
+    for n in range(1, 131):
+        for chain in CHAINS:
+            j += 1
+            if j % ctx.nshards == ctx.shard:
+                ctx.do({"chain": chain, "src": ("abcdefghijklmnopqrstuvwxyz0123456789-/é"[n % 7:] * 5)[:n]})
     ctx.hyp(random_cases(), 600 if ctx.tier == "quick" else 5000)
 
 
@@ -213,6 +221,8 @@ def random_cases(draw):
     chain = draw(st.sampled_from(CHAINS))
     alphabet = st.one_of(st.sampled_from(SYMS + ["-", "/", "%", ".", "A", "0", "\n", "\x7f", "ÿ", "߿", "￿"]),
                          st.characters(blacklist_categories=["Cs"], blacklist_characters="*?\\").map(str))
-    src = "".join(draw(st.lists(alphabet, min_size=1, max_size=12)))
+    # lengths: mostly short, a quarter long (encoder line lengths 57/76, block sizes 64/128/256 are crossed)
+    maxlen = draw(st.sampled_from([12, 12, 12, 300]))
+    src = "".join(draw(st.lists(alphabet, min_size=1 if maxlen == 12 else 20, max_size=maxlen)))
     fill = draw(st.lists(st.binary(min_size=1, max_size=6).map(bytes.hex), max_size=2))
     return {"chain": chain, "src": src, "fill": fill}
